@@ -321,7 +321,14 @@ impl<SP: StorageProvider, PS: PolicyStore> Transaction<SP, PS> {
             sink.rollback();
             return Err(e.into());
         }
-        perspective.add_command(command)?;
+        if let Err(e) = perspective.add_command(command) {
+            // The command was evaluated but cannot be appended (its parent
+            // address does not match the perspective's head): undo its fact
+            // writes and effects like any other rejected command.
+            perspective.revert(checkpoint)?;
+            sink.rollback();
+            return Err(e.into());
+        }
         sink.commit();
 
         self.phead = Some(command.id());
@@ -459,7 +466,10 @@ impl<SP: StorageProvider, PS: PolicyStore> Transaction<SP, PS> {
             // We don't need to revert perspective since we just drop it.
             return Err(e.into());
         }
-        perspective.add_command(command)?;
+        if let Err(e) = perspective.add_command(command) {
+            sink.rollback();
+            return Err(e.into());
+        }
 
         let (_, storage) = provider.new_storage(perspective)?;
 
